@@ -1,22 +1,25 @@
 #!/usr/bin/env bash
 # Confirm a seeded change in its scratch worktree: builds, existing tests pass with it,
-# demo fails with it and passes without it.  usage: confirm_seed.sh C03 A
+# demo fails with it and passes without it.  usage: [CLEAN=1] [DEMO_FLAGS="--features verif"] confirm_seed.sh C03 A
+# CLEAN=1 forces a fresh draw / re-compiled book (cargo clean -p chess) before every build.
 ID=$1; V=$2
 W=/tmp/seed/$ID; S=$W/SEED/$V
 cd "$W" || exit 2
-git checkout -q -- . ; rm -f tests/seed_demo_*.rs
+git checkout -q -- . ; rm -f tests/seed_demo*.rs
 LOG=$S/confirm.log; : > "$LOG"
 mkdir -p tests
+clean() { [ -n "${CLEAN:-}" ] && cargo clean -p chess --offline >/dev/null 2>&1; true; }
 git apply --check "$S/patch.diff" >>"$LOG" 2>&1 || { echo "$ID/$V patch does not apply"; exit 1; }
 git apply "$S/patch.diff"
-# existing suite with the change (demo not present)
-cargo test --offline -j 8 --lib --bins 2>&1 | grep -E "^test result|FAILED|error(\[|:)" >>"$LOG"
+clean
+cargo test --offline -j 8 --lib --bins 2>&1 | grep -E "^test result|error(\[|:)" >>"$LOG"
 suite=$(grep -c "test result: ok. 90 passed" "$LOG")
 cp "$S/demo.rs" tests/seed_demo.rs
-cargo test --offline -j 8 --test seed_demo 2>&1 | grep -E "^test result|error(\[|:)" > "$S/demo_with.log"
-with_fail=$(grep -c "FAILED\|failed" "$S/demo_with.log")
+cargo test --offline -j 8 ${DEMO_FLAGS:-} --test seed_demo 2>&1 | grep -E "^test result|error(\[|:)" > "$S/demo_with.log"
+with_fail=$(grep -c "test result: FAILED" "$S/demo_with.log")
 git checkout -q -- .
-cargo test --offline -j 8 --test seed_demo 2>&1 | grep -E "^test result|error(\[|:)" > "$S/demo_without.log"
-without_ok=$(grep -c "test result: ok" "$S/demo_without.log")
+clean
+cargo test --offline -j 8 ${DEMO_FLAGS:-} --test seed_demo 2>&1 | grep -E "^test result|error(\[|:)" > "$S/demo_without.log"
+without_ok=$(grep -c "test result: ok. [1-9]" "$S/demo_without.log")
 rm -f tests/seed_demo.rs
 echo "$ID/$V suite_ok_with_change=$suite demo_fails_with_change=$with_fail demo_passes_without=$without_ok" | tee -a "$LOG"
